@@ -348,7 +348,8 @@ PROPS["C01"]["manifest"]["text"] += (" Tx.BytesWithClearedInputs, IsCoinbase, In
 PROPS["C20"]["manifest"]["text"] += (" The validation gates are theorems and a stream of their own: listing_gate_protects_outpoint, bid_gate_protects_outpoint,"
                                      " bid2d_gate_protects_outpoints (an offer passes only if the protected input(s) spend exactly the expected outpoint(s), the bid"
                                      " is written where the flow says and the quoted fee is paid) and accept_*_needs_valid_offer (no completing flow builds a"
-                                     " transaction from an offer its gate refuses); op C20.validate generates offers and expectations apart (one bit / one byte of"
+                                     " transaction from an offer its gate refuses), accepted_bid_spends_the_ordinal / accepted_bid2D_spends_the_ordinal (the completed bid's"
+                                     " ordinal input spends exactly the expected outpoint with its value and script); op C20.validate generates offers and expectations apart (one bit / one byte of"
                                      " the outpoint changed, lists one short or long, dummies that do not add up, unaffordable bids).")
 PROPS["C18"]["manifest"]["text"] += (" The shared-state extractor also lists package-level arrays that are sliced and copy() into package-level variables; scenario"
                                      " enginelong validates transactions with scripts longer than the decoder's 64 KiB read chunk concurrently.")
